@@ -125,7 +125,7 @@ _ALL = {
              'combine all results (S4); the limit is divided (S5); arguments are passed in the right positions (S6); '
              'hash recipe and shard directory names equal the released format (P3).',
              'Per-call equivalence with the unsharded cache over histories needs execution and is not decided.'),
-    'C14': P(['T4', ('F3', r'timeout-exit'), 'R1', 'R2', 'R3', 'R4', 'R5', ('E4', r'timeout-carries-count'),
+    'C14': P(['T4', ('F3', r'timeout-exit'), 'R1', 'R2', 'R3', 'R4', 'R5', ('D7', r'timeout'), ('E4', r'timeout-carries-count'),
               ('L6', r'init-leaves|connect-autocommit')],
              'may-raise-Timeout fixpoint over the resolved call graph + busy-path protocol of the manager',
              'Decides that a busy BEGIN either loops (retry) or releases the caller\'s new file and raises Timeout with '
@@ -143,7 +143,7 @@ _ALL = {
              'identity is pid+tid on both sides and release asserts ownership (O1, O2); context-manager forms and '
              'barrier use acquire/release (O3); add/delete underneath are atomic (L2).',
              'Mutual exclusion over all interleavings follows from these only under A2; it is not model-checked here.'),
-    'C16': P(['M1', 'M2', 'M3', 'M4', 'M5', ('O5', r'memoize_stampede'), ('S8', r'memoize'), ('B2', r'Cache\.get/'), ('S6', r'memoize')],
+    'C16': P(['M1', 'M2', 'M3', 'M4', 'M5', 'D5', ('O5', r'memoize_stampede'), ('S8', r'memoize'), ('B2', r'Cache\.get/'), ('S6', r'memoize')],
              'concatenation-grammar reading of the key builder + wrapper dataflow (same key looked up and stored)',
              'Decides that the key builder separates positional from keyword segments by a delimiter no argument value '
              'can equal (M1 - violated: the delimiter is None, known finding); typed/ignore are applied to every kept '
@@ -166,7 +166,7 @@ _ALL = {
              'released 5.6.3 reference (P3); a tested parameter is used (P4); connections are per thread and re-opened '
              'after fork/close (L6).',
              'Byte-level readability of pickles across Python versions is not decided.'),
-    'C19': P(['D1', 'D2', 'D3', 'D4', 'D5', 'D6', ('S8', r'^DjangoCache'), ('I2', r'^(DjangoCache|no-store)'), ('S6', r'djangocache'), ('R2', r'DjangoCache'), 'R3'],
+    'C19': P(['D1', 'D2', 'D3', 'D4', 'D5', 'D6', 'D7', ('S8', r'^DjangoCache'), ('I2', r'^(DjangoCache|no-store)'), ('S6', r'djangocache'), ('R2', r'DjangoCache'), 'R3'],
              'key/timeout dataflow through the adapter + abstract evaluation of get_backend_timeout on 5 input classes',
              'Does NOT decide the full backend contract over histories. Decides: every key goes downstream as '
              'make_key(key, version=version) (D1); every timeout goes through get_backend_timeout, which maps the '
